@@ -1,6 +1,7 @@
 import JunoModel.Common.Proto
 import JunoModel.C09.Model
 import JunoModel.C09.ModelRpc
+import JunoModel.C09.ModelCodec
 /-!
 Line-protocol driver for the C09 model (`lake build c09drv`). Numbers are hexadecimal.
 
@@ -49,6 +50,12 @@ Round 5 (the RPC layer, `ModelRpc.lean`); STR = `-` | code points (hex) joined b
   cacheset W,W,…      AggregatedBloomFilterCache.SetMany with the persisted windows starting at W, …        -> ok | err:notfound
   v8sub LATEST | v8reorg START   rpc v8 subscription: created at head LATEST / reorg notification     -> ok
   v8head ADDRS KEYS NUM          rpc v8 onNewHead: the events notified                              -> <b.t.i,…|-> | err
+
+Round 6 (the persisted form, `ModelCodec.lean`); BYTES = seg `,` seg …, seg = `r<count>.<byte>` (a run) | `h<hex bytes>`:
+  aggdec R W BYTES    AggregatedBloomFilter.UnmarshalBinary for R rows of W bits
+                      -> ok <from> <to> <rows> <cks of all words> | err:eof | err:size
+  aggenc R W BYTES    MarshalBinary of the filter BYTES decodes to        -> ok <length> <cks of the bytes> | err:eof | err:size
+  rundec R W BYTES    RunningEventFilter.UnmarshalBinary  -> ok <from> <to> <rows> <cks of all words> <next> | err:eof | err:size
 -/
 open Juno.Proto Juno.C09
 
@@ -63,6 +70,30 @@ structure St where
 def cfg0 : Cfg := ⟨8192, 16, false, false, false, false⟩
 
 def hx (n : Nat) : String := natToHex n
+
+def pushRun : Nat → Nat → List Nat → List Nat
+  | 0, _, acc => acc
+  | c + 1, b, acc => pushRun c b (b :: acc)
+
+/-- One segment put in front of `acc`. -/
+def seg? (s : String) (acc : List Nat) : Option (List Nat) :=
+  match s.toList with
+  | 'r' :: r =>
+    match (String.ofList r).splitOn "." with
+    | [c, b] =>
+      match hexToNat? c, hexToNat? b with
+      | some c, some b => if b < 256 then some (pushRun c b acc) else none
+      | _, _ => none
+    | _ => none
+  | 'h' :: r => (hexToBytes? (String.ofList r)).map (fun l => l.foldr (fun x a => x.toNat :: a) acc)
+  | _ => none
+
+def bytes? (s : String) : Option (List Nat) :=
+  (s.splitOn ",").reverse.foldlM (fun acc sg => seg? sg acc) []
+
+def codecErr : Codec.CErr → String
+  | .eof => "err:eof"
+  | .size => "err:size"
 
 def splitNonEmpty (s : String) (sep : String) : List String := (s.splitOn sep).filter (fun w => !w.isEmpty)
 
@@ -385,6 +416,23 @@ def step (st : St) (line : String) : St × String :=
       let r := st.dd.markSent num ident (h, t, i)
       ({ st with dd := r.1 }, if r.2 then "1" else "0")
     | _, _, _, _, _ => (st, "bad-op")
+  | [op, r, w, bs] =>
+    if op != "aggdec" && op != "aggenc" && op != "rundec" then (st, "bad-op") else
+    match hexToNat? r, hexToNat? w, bytes? bs with
+    | some r, some w, some bs =>
+      if op == "rundec" then
+        match Codec.unmarshalRun ⟨r, w⟩ bs with
+        | .error e => (st, codecErr e)
+        | .ok (m, next) => (st, s!"ok {hx m.from_} {hx m.to} {hx m.rows.length} {hx (Codec.cks m.rows.flatten)} {hx next}")
+      else
+        match Codec.unmarshal ⟨r, w⟩ bs with
+        | .error e => (st, codecErr e)
+        | .ok m =>
+          if op == "aggdec" then (st, s!"ok {hx m.from_} {hx m.to} {hx m.rows.length} {hx (Codec.cks m.rows.flatten)}")
+          else
+            let enc := Codec.marshal ⟨r, w⟩ m
+            (st, s!"ok {hx enc.length} {hx (Codec.cks enc)}")
+    | _, _, _ => (st, "bad-op")
   | ["dump"] => (st, dump st.node)
   | ["explain", b] =>
     match hexToNat? b with
